@@ -115,7 +115,7 @@ fn main() {
     let lazy = vcf::Record::try_from(line.as_bytes()).unwrap();
     say!("   lazy info XC1 = {:?}", lazy.info().get(&h, "XC1").map(|r| r.map(|v| format!("{v:?}"))));
 
-    say!("== N1 header writer drops IDX (C09: parse(write(h)) != h; C10: dictionary mismatch)");
+    say!("== V1 header writer drops IDX (C09: parse(write(h)) != h; C10: dictionary mismatch)");
     let hi: vcf::Header = "##fileformat=VCFv4.3\n##INFO=<ID=A,Number=1,Type=Integer,Description=\"\",IDX=2>\n##INFO=<ID=B,Number=1,Type=Integer,Description=\"\",IDX=1>\n##contig=<ID=sq0>\n#CHROM\tPOS\tID\tREF\tALT\tQUAL\tFILTER\tINFO\n".parse().unwrap();
     let mut w = vcf::io::Writer::new(Vec::new());
     w.write_header(&hi).unwrap();
@@ -134,7 +134,7 @@ fn main() {
         Err(e) => say!("   BCF: wrote A=7, read back Err({e})"),
     }
 
-    say!("== N6 variant_span panics (overflow-checks) when END < POS");
+    say!("== V2 variant_span panics (overflow-checks) when END < POS");
     let rb = vcf_parse(&h, "sq0\t100\t.\tA\t.\t.\t.\tEND=99\tGT\t0/1\t0/1\n").unwrap();
     let hh = h.clone();
     say!("   variant_span: {:?}", caught(move || rb.variant_span(&hh).map_err(|e| e.to_string())));
@@ -153,7 +153,7 @@ fn main() {
     let (_, rb) = bcf_back(&bcf_bytes(&h, &r).unwrap()).unwrap();
     say!("   XSU [\"a,b\",\"c\"] → {:?}; YS1 \".\" → {:?}", rb.info().get("XSU"), rb.samples().values().next().unwrap().values()[1]);
 
-    say!("== N11 lazy bcf::Record percent-decodes string vectors, the eager reader does not");
+    say!("== D13b lazy bcf::Record percent-decodes string vectors, the eager reader does not");
     let r = rec(vec![("XSU", Some(IV::from(vec![Some("%3B".to_string()), Some("x".to_string())])))], &["GT"], vec![vec![g01()], vec![g01()]]);
     let bytes = bcf_bytes(&h, &r).unwrap();
     let (h2, rb) = bcf_back(&bytes).unwrap();
@@ -161,7 +161,7 @@ fn main() {
     say!("   eager {:?}", rb.info().get("XSU"));
     say!("   lazy  {:?}", lz.info().get(&h2, "XSU").map(|r| r.map(|v| format!("{v:?}"))));
 
-    say!("== N3 genotypes of unequal ploidy → malformed record (padding written after every allele)");
+    say!("== V3 genotypes of unequal ploidy → malformed record (padding written after every allele)");
     let r = rec(vec![], &["GT"], vec![vec![gt(&[(Some(0), false), (Some(1), false), (Some(1), false)])], vec![g01()]]);
     let bytes = bcf_bytes(&h, &r).unwrap();
     say!("   0/1/1 + 0/1: indiv bytes {:02x?} → {:?}", &bytes[bytes.len() - 10..], bcf_back(&bytes).map(|x| format!("{:?}", x.1.samples())));
@@ -169,18 +169,18 @@ fn main() {
     let bytes = bcf_bytes(&h, &r).unwrap();
     say!("   (no alleles) + 0/1 → {:?}", bcf_back(&bytes).map(|x| format!("{:?}", x.1.samples().values().map(|s| format!("{:?}", s.values())).collect::<Vec<_>>())));
 
-    say!("== N4 phasing of a missing allele is lost (0|. → 0/.)");
+    say!("== V4 phasing of a missing allele is lost (0|. → 0/.)");
     let r = rec(vec![], &["GT"], vec![vec![gt(&[(Some(0), true), (None, true)])], vec![g01()]]);
     let (h2, rb) = bcf_back(&bcf_bytes(&h, &r).unwrap()).unwrap();
     say!("   VCF of input {:?}", vcf_line(&h, &r).unwrap());
     say!("   VCF of BCF   {:?}", vcf_line(&h2, &rb).unwrap());
 
-    say!("== N5 integer-vector FORMAT column missing in every sample → malformed record");
+    say!("== V5 integer-vector FORMAT column missing in every sample → malformed record");
     let r = rec(vec![], &["GT", "YIU"], vec![vec![g01(), None], vec![g01(), None]]);
     let bytes = bcf_bytes(&h, &r).unwrap();
     say!("   indiv tail {:02x?} → {:?}", &bytes[bytes.len() - 6..], bcf_back(&bytes).map(|_| "ok"));
 
-    say!("== N7 reserved NaN payloads are not rejected");
+    say!("== V6 reserved NaN payloads are not rejected");
     let eov = f32::from_bits(0x7f80_0002);
     let r = rec(vec![("XFU", Some(IV::from(vec![Some(1.0), Some(eov), Some(2.0)])))], &["GT"], vec![vec![g01()], vec![g01()]]);
     let hh = h.clone();
@@ -192,12 +192,12 @@ fn main() {
     let bytes = bcf_bytes(&h, &r).unwrap();
     say!("   FORMAT float scalar: reader → {:?}", caught(move || bcf_back(&bytes).map(|_| "ok")));
 
-    say!("== N13 allele index 127 → arithmetic overflow panic in the GT encoder");
+    say!("== V7 allele index 127 → arithmetic overflow panic in the GT encoder");
     let r = rec(vec![], &["GT"], vec![vec![gt(&[(Some(0), false), (Some(127), false)])], vec![g01()]]);
     let hh = h.clone();
     say!("   {:?}", caught(move || bcf_bytes(&hh, &r).map(|_| "ok")));
 
-    say!("== N2 lazy per-sample vectors: len() counts the end-of-vector padding");
+    say!("== V8 lazy per-sample vectors: len() counts the end-of-vector padding");
     let r = rec(vec![], &["GT", "YIU"], vec![vec![g01(), Some(SV::from(vec![Some(1), Some(2), Some(3)]))], vec![g01(), Some(SV::from(vec![Some(4)]))]]);
     let bytes = bcf_bytes(&h, &r).unwrap();
     let (h2, lz) = bcf_lazy(&bytes).unwrap();
@@ -212,7 +212,7 @@ fn main() {
     let again = bcf_bytes(&h2, &lz).unwrap();
     say!("   re-encoding the lazy record: {:?}", bcf_back(&again).map(|x| format!("{:?}", x.1.samples().values().map(|s| format!("{:?}", s.values()[1])).collect::<Vec<_>>())));
 
-    say!("== N14 lazy INFO: a one-element Int16/Int32 vector is returned as a scalar");
+    say!("== V9 lazy INFO: a one-element Int16/Int32 vector is returned as a scalar");
     let r = rec(vec![("XIU", Some(IV::from(vec![Some(5000)])))], &["GT"], vec![vec![g01()], vec![g01()]]);
     let bytes = bcf_bytes(&h, &r).unwrap();
     let (h2, rb) = bcf_back(&bytes).unwrap();
@@ -220,7 +220,7 @@ fn main() {
     say!("   eager {:?}", rb.info().get("XIU"));
     say!("   lazy  {:?}", lz.info().get(&h2, "XIU").map(|r| r.map(|v| format!("{v:?}"))));
 
-    say!("== N9 bcf::Record::end() on a telomeric record (POS 0) → todo!()");
+    say!("== V10 bcf::Record::end() on a telomeric record (POS 0) → todo!()");
     let mut r = rec(vec![], &["GT"], vec![vec![g01()], vec![g01()]]);
     *r.variant_start_mut() = None;
     let bytes = bcf_bytes(&h, &r).unwrap();
